@@ -391,10 +391,10 @@ where
         }
         .await;
         // The frame has been handed to the radio, so its counter is spent even when the radio
-        // failed before a receive window could close the transaction: a later uplink must never
-        // reuse the counter (and with it the keystream) with different contents.
-        if result.is_err()
-            && self.mac.get_fcnt_up() == Some(fcnt_up)
+        // failed before a receive window could close the transaction, or when the windows were
+        // ended by a frame that is not for the unicast session (a multicast downlink): a later
+        // uplink must never reuse the counter (and with it the keystream) with different contents.
+        if self.mac.get_fcnt_up() == Some(fcnt_up)
             && let mac::Response::SessionExpired = self.mac.rx2_complete()
         {
             return Ok(SendResponse::SessionExpired);
